@@ -155,8 +155,10 @@ def run(ck):
         kern = ['l2', 'l2_high_dim', 'l1', 'lpq'][i % 4]
         extra = dict(norm_p=1.5) if kern == 'lpq' else {}
         xr.seed_all(440 + i)
-        model = xr.xRFM(rfm_params=xr.default_rfm_params(kernel=kern, iters=1, reg=1e-2, bandwidth=3.0, **extra), max_leaf_size=40, verbose=False,
-                        use_temperature_tuning=False, n_trees=[1, 2][(i // 2) % 2], split_method='random_pca')
+        # every fourth model: three trees requested on data that fits one leaf, so only one tree is built (the mean is over BUILT trees)
+        one_leaf = (i % 4 == 3)
+        model = xr.xRFM(rfm_params=xr.default_rfm_params(kernel=kern, iters=1, reg=1e-2, bandwidth=3.0, **extra), max_leaf_size=(1000 if one_leaf else 40),
+                        verbose=False, use_temperature_tuning=False, n_trees=(3 if one_leaf else [1, 2][(i // 2) % 2]), split_method='random_pca')
         with xr.quiet():
             model.fit(torch.tensor(X), torch.tensor(Y), torch.tensor(X[:30]), torch.tensor(Y[:30]))
             Q = torch.tensor(xr.make_X('random', 7, d, rng))
@@ -172,7 +174,7 @@ def run(ck):
         worst = float(np.max(np.abs(J - want)[~skip])) if (~skip).any() else 0.0
         scale = float(np.abs(want).max()) + 1e-6
         ck.case(dict(kind='xrfm-jacobian', kernel=kern, nout=nout, trees=len(model.trees), worst=worst), nontrivial=True)
-        ck.count(f'xrfm-level {kern}')
+        ck.count(f'xrfm-level {kern}'); ck.count(f'xrfm-level trees held {len(model.trees)} of {model.n_trees}')
         if J.shape != (len(Q), nout, d) or worst > 1e-4 * scale:
             ck.violation(f'xRFM.get_grads rows differ from the gradients of the leaves reached by hard routing by {worst:.3g} (scale {scale:.3g}), kernel {kern}, '
                          f'{nout} outputs, {len(model.trees)} trees', dict(kernel=kern, nout=nout, worst=worst),
